@@ -232,4 +232,256 @@ theorem getLabel_inv (U : Nat → Bytes) {s : State} (hI : Inv s) (p : ProvRef) 
       · exact ih
     · exact ih
 
+/-! ### `mapNode` -/
+
+theorem mapNode_ext (s : State) (m : Nat) (n : Node) : Ext s (mapNode s m n).1 := by
+  simp only [mapNode]
+  split
+  · exact Ext.refl s
+  · rename_i mp hm
+    split
+    · exact Ext.refl s
+    · rename_i hn
+      split
+      · exact Ext.refl s
+      · rename_i s' id hf
+        have hE := ext_of_fresh hf
+        have h4 : s'.mappers = s.mappers := (fresh_spec hf).2.2.2.1
+        refine { hE with mappers := ?_ }
+        intro i' p' hp'
+        simp only [List.getElem?_set, h4]
+        by_cases hii : m = i'
+        · subst hii
+          rw [hm] at hp'; cases hp'
+          simp [lt_length_of_getElem? hm]
+          intro k v hk
+          exact assoc_cons_of_none hn hk
+        · simp [hii]; exact ⟨p', hp', rfl, fun _ _ h => h⟩
+
+theorem mapNode_inv {s : State} (hI : Inv s) (m : Nat) (n : Node) : Inv (mapNode s m n).1 := by
+  simp only [mapNode]
+  split
+  · exact hI
+  · rename_i mp hm
+    split
+    · exact hI
+    · rename_i hn
+      split
+      · exact hI
+      · rename_i s' id hf
+        have hE := ext_of_fresh hf
+        have hI' := inv_of_fresh hI hf
+        obtain ⟨h1, h2, h3, h4, h5, h6, _, _, hni, hi'⟩ := fresh_spec hf
+        have hlt : m < s.mappers.length := lt_length_of_getElem? hm
+        have hE2 : Ext s' { s' with mappers := s'.mappers.set m { mp with known := (n, id) :: mp.known } } := by
+          refine { Ext.refl s' with mappers := ?_ }
+          intro i' p' hp'
+          simp only [List.getElem?_set, h4]
+          rw [h4] at hp'
+          by_cases hii : m = i'
+          · subst hii
+            rw [hm] at hp'; cases hp'
+            simp [hlt]
+            intro k v hk
+            exact assoc_cons_of_none hn hk
+          · simp [hii]; exact ⟨p', hp', rfl, fun _ _ h => h⟩
+        refine { hI' with mapper_factory := ?_, mapper_issued := ?_, mapper_inj := ?_ }
+        · intro i' p' hp'
+          simp only [List.getElem?_set, h4] at hp'
+          by_cases hii : m = i'
+          · subst hii
+            simp [hlt] at hp'; subst hp'
+            have := validFactory_mono hE (hI.mapper_factory m mp hm)
+            simpa [validFactory] using this
+          · simp [hii] at hp'
+            have := validFactory_mono hE (hI.mapper_factory i' p' hp')
+            simpa [validFactory] using this
+        · intro i' p' hp' k v hk
+          simp only [List.getElem?_set, h4] at hp'
+          by_cases hii : m = i'
+          · subst hii
+            simp [hlt] at hp'; subst hp'
+            simp at hk
+            rcases hk with ⟨_, rfl⟩ | hk
+            · exact issued_mono hE2 hi'
+            · exact issued_mono hE2 (issued_mono hE (hI.mapper_issued m mp hm k v hk))
+          · simp [hii] at hp'
+            exact issued_mono hE2 (issued_mono hE (hI.mapper_issued i' p' hp' k v hk))
+        · intro i' p' hp' k k' v hk hk'
+          simp only [List.getElem?_set, h4] at hp'
+          by_cases hii : m = i'
+          · subst hii
+            simp [hlt] at hp'; subst hp'
+            simp at hk hk'
+            rcases hk with ⟨rfl, rfl⟩ | hk <;> rcases hk' with ⟨rfl, hv⟩ | hk'
+            · rfl
+            · exact absurd (hI.mapper_issued m mp hm k' _ hk') hni
+            · subst hv; exact absurd (hI.mapper_issued m mp hm k _ hk) hni
+            · exact hI.mapper_inj m mp hm k k' v hk hk'
+          · simp [hii] at hp'; exact hI.mapper_inj i' p' hp' k k' v hk hk'
+
+/-! ### `step` -/
+
+theorem step_ext (U : Nat → Bytes) (s : State) (op : Op) : Ext s (step U s op).1 := by
+  cases op with
+  | newFactory =>
+    exact { Ext.refl s with bnfs := fun f c h => ⟨c, getElem?_append_some _ h, Nat.le_refl _⟩ }
+  | newStringFactory =>
+    exact { Ext.refl s with
+      bnfs := fun f c h => ⟨c, getElem?_append_some _ h, Nat.le_refl _⟩
+      strfs := fun j a h => getElem?_append_some _ h }
+  | newBlankNode f =>
+    simp only [step]
+    split
+    · rename_i s' id hf; exact ext_of_fresh hf
+    · exact Ext.refl s
+  | newStringBlankNode j l =>
+    simp only [step]
+    split
+    · split
+      · split
+        · rename_i s' id hf; exact ext_of_fresh hf
+        · exact Ext.refl s
+      · exact Ext.refl s
+    · exact Ext.refl s
+  | newInt64Provider fmt =>
+    exact { Ext.refl s with int64s := fun i p h => ⟨p, getElem?_append_some _ h, rfl, fun _ _ h => h⟩ }
+  | newUUIDProvider fmt =>
+    exact { Ext.refl s with uuids := fun i p h => ⟨p, getElem?_append_some _ h, rfl, fun _ _ h => h⟩ }
+  | getStringProvider j fb =>
+    simp only [step]; split <;> exact Ext.refl s
+  | getLabel p n => exact getLabel_ext U s p n
+  | newMapper f =>
+    simp only [step]
+    split
+    · exact { Ext.refl s with mappers := fun i p h => ⟨p, getElem?_append_some _ h, rfl, fun _ _ h => h⟩ }
+    · exact Ext.refl s
+  | mapNode m n => exact mapNode_ext s m n
+  | propagate h =>
+    simp only [step]
+    split
+    · split
+      · exact { Ext.refl s with uuids := fun i p h => ⟨p, getElem?_append_some _ h, rfl, fun _ _ h => h⟩ }
+      · exact Ext.refl s
+    · split <;> exact Ext.refl s
+    · exact Ext.refl s
+  | termEquals a b => exact Ext.refl s
+
+/-- appending an element: an entry of the longer list is an old one or the new one -/
+theorem getElem?_append_singleton_cases {α : Type} {l : List α} {y x : α} {i : Nat}
+    (h : (l ++ [y])[i]? = some x) : l[i]? = some x ∨ (i = l.length ∧ x = y) := by
+  rw [List.getElem?_append] at h
+  split at h
+  · exact Or.inl h
+  · rename_i hlt
+    right
+    cases hi : i - l.length with
+    | zero => rw [hi] at h; simp at h; exact ⟨by omega, h.symm⟩
+    | succ k => rw [hi] at h; simp at h
+
+theorem step_inv (U : Nat → Bytes) {s : State} (hI : Inv s) (op : Op) : Inv (step U s op).1 := by
+  have hE := step_ext U s op
+  cases op with
+  | newFactory =>
+    simp only [step] at hE ⊢
+    exact { hI with
+      strfs_valid := fun j a h => by
+        have := hI.strfs_valid j a h; simp; omega
+      mapper_factory := fun m mp h => validFactory_mono hE (hI.mapper_factory m mp h)
+      mapper_issued := fun m mp h k v hk => issued_mono hE (hI.mapper_issued m mp h k v hk) }
+  | newStringFactory =>
+    simp only [step] at hE ⊢
+    exact { hI with
+      strfs_valid := fun j a h => by
+        simp at h ⊢
+        rcases getElem?_append_singleton_cases h with h | ⟨_, rfl⟩
+        · have := hI.strfs_valid j a h; omega
+        · omega
+      mapper_factory := fun m mp h => validFactory_mono hE (hI.mapper_factory m mp h)
+      mapper_issued := fun m mp h k v hk => issued_mono hE (hI.mapper_issued m mp h k v hk) }
+  | newBlankNode f =>
+    simp only [step]
+    split
+    · rename_i s' id hf; exact inv_of_fresh hI hf
+    · exact hI
+  | newStringBlankNode j l =>
+    simp only [step]
+    split
+    · split
+      · split
+        · rename_i s' id hf; exact inv_of_fresh hI hf
+        · exact hI
+      · exact hI
+    · exact hI
+  | newInt64Provider fmt =>
+    simp only [step] at hE ⊢
+    exact { hI with
+      mapper_factory := fun m mp h => hI.mapper_factory m mp h
+      mapper_issued := fun m mp h k v hk => hI.mapper_issued m mp h k v hk
+      int64_bound := fun i p h k v hk => by
+        rcases getElem?_append_singleton_cases h with h | ⟨_, rfl⟩
+        · exact hI.int64_bound i p h k v hk
+        · simp at hk
+      int64_inj := fun i p h k k' v hk hk' => by
+        rcases getElem?_append_singleton_cases h with h | ⟨_, rfl⟩
+        · exact hI.int64_inj i p h k k' v hk hk'
+        · simp at hk }
+  | newUUIDProvider fmt =>
+    simp only [step] at hE ⊢
+    exact { hI with
+      mapper_factory := fun m mp h => hI.mapper_factory m mp h
+      mapper_issued := fun m mp h k v hk => hI.mapper_issued m mp h k v hk
+      uuid_bound := fun i p h k v hk => by
+        rcases getElem?_append_singleton_cases h with h | ⟨_, rfl⟩
+        · exact hI.uuid_bound i p h k v hk
+        · simp at hk
+      uuid_inj := fun i p h k k' v hk hk' => by
+        rcases getElem?_append_singleton_cases h with h | ⟨_, rfl⟩
+        · exact hI.uuid_inj i p h k k' v hk hk'
+        · simp at hk }
+  | getStringProvider j fb =>
+    simp only [step]; split <;> exact hI
+  | getLabel p n => exact getLabel_inv U hI p n
+  | newMapper f =>
+    simp only [step] at hE ⊢
+    split
+    · rename_i hv
+      exact { hI with
+        mapper_factory := fun m mp h => by
+          rcases getElem?_append_singleton_cases h with h | ⟨_, rfl⟩
+          · exact hI.mapper_factory m mp h
+          · exact hv
+        mapper_issued := fun m mp h k v hk => by
+          rcases getElem?_append_singleton_cases h with h | ⟨_, rfl⟩
+          · exact hI.mapper_issued m mp h k v hk
+          · simp at hk
+        mapper_inj := fun m mp h k k' v hk hk' => by
+          rcases getElem?_append_singleton_cases h with h | ⟨_, rfl⟩
+          · exact hI.mapper_inj m mp h k k' v hk hk'
+          · simp at hk }
+    · exact hI
+  | mapNode m n => exact mapNode_inv hI m n
+  | propagate h =>
+    simp only [step]
+    split
+    · split
+      · exact { hI with
+          mapper_factory := fun m mp h => hI.mapper_factory m mp h
+          mapper_issued := fun m mp h k v hk => hI.mapper_issued m mp h k v hk
+          uuid_bound := fun i p h k v hk => by
+            rcases getElem?_append_singleton_cases h with h | ⟨_, rfl⟩
+            · exact hI.uuid_bound i p h k v hk
+            · simp at hk
+          uuid_inj := fun i p h k k' v hk hk' => by
+            rcases getElem?_append_singleton_cases h with h | ⟨_, rfl⟩
+            · exact hI.uuid_inj i p h k k' v hk hk'
+            · simp at hk }
+      · exact hI
+    · split <;> exact hI
+    · exact hI
+  | termEquals a b => exact hI
+
+theorem inv_init (d : Nat) : Inv (init d) := by
+  constructor <;> intros <;> simp_all [init]
+
 end RdfModel.Proofs.C14
